@@ -193,6 +193,31 @@ func ResetEnv() {
 	dates.SetNowFunc(dates.NewSequentialNow(time.Date(2025, 1, 1, 0, 0, 0, 0, time.UTC), time.Second))
 }
 
+// Freeze marks everything reachable from root as shared and immutable: from
+// here on a write to it outside a held mutex is a violation (symbolic runs).
+func Freeze(name string, root any) {}
+
+// Guard marks everything reachable from root as lock-guarded: reads and
+// writes outside a held mutex are violations (symbolic runs).
+func Guard(name string, root any) {}
+
+// Parallel runs fn from n goroutines natively (under the race detector in
+// replays); symbolically fn runs once and the monitors check the discipline.
+func Parallel(n int, fn func(worker int)) {
+	done := make(chan any, n)
+	for w := 0; w < n; w++ {
+		go func(w int) {
+			defer func() { done <- recover() }()
+			fn(w)
+		}(w)
+	}
+	for w := 0; w < n; w++ {
+		if r := <-done; r != nil {
+			panic(r)
+		}
+	}
+}
+
 // Run executes fn natively and reports how it ended.
 func Run(fn func()) (outcome string, detail string) {
 	defer func() {
